@@ -9,6 +9,8 @@ import MidnightZK.Proofs.C07.VarlenShaA
 import MidnightZK.Proofs.C07.VarlenShaB
 import MidnightZK.Proofs.C07.VarlenShaC
 import MidnightZK.Proofs.C07.VarlenShaD
+import MidnightZK.Proofs.C07.ChipDigest
+import MidnightZK.Proofs.C10.Prime
 /-!
 # C07 — hash gadgets equal their reference functions on every message
 Property theorems (helper lemmas live in `MidnightZK/Proofs/C07`).
@@ -468,6 +470,217 @@ theorem lookup_lengths_ok :
     [10, 9, 11, 2, 7, 12, 5, 6, 3, 4].all (fun n => Gen.sha256LookupLengths.contains n) = true ∧
     7 * 2 ^ 64 < Gen.p ∧ 3 * 4 ^ 64 < Gen.p := by
   decide +kernel
+
+/-! ## SHA-256 chip wiring: emitter, generated gates, soundness for every assignment
+
+`Model/C07/ShaChip.lean` mirrors `sha256_chip.rs` as an emitter of regions (selectors, tag cells,
+advice cells, copy constraints); its output is compared line by line with the recorded real synthesis
+on every run. `Gen/C07ShaGates.lean` holds the gate polynomials dumped from the real
+`Sha256Chip::configure`. The theorems below are about ANY assignment `a` of all cells (values are
+canonical representatives `< p`): if it satisfies the gates (modulo `p`), the lookups and the copy
+constraints of the emitted regions (`TraceSat`), the output cells hold the FIPS 180-4 values. `p` is
+any prime `≥ 2^66` (the native modulus is one: `sha256_chip_gates_shape`; its primality is C10's
+`blsR_prime`). -/
+
+section ShaChip
+open Chip
+
+/-- Shape of the generated constraint system of the chip: the two lookups read `(T_i, A_{2i}, A_{2i+1})`
+(the columns the emitter and `Sat` use), the logical advice columns are a permutation of the eight
+shared columns, the native modulus is the one of the Poseidon constants and exceeds `2^66` (no
+wrap-around in any gate of the chip), and the plain-spreaded table only has tags `≤ 12`. -/
+theorem sha256_chip_gates_shape :
+    Gen.shaLookups = [(0, 0, 1), (1, 2, 3)] ∧ Gen.shaFixedCols = [0, 1] ∧
+    (List.range 8).all (fun c => Gen.shaAdvCols.count c == 1) = true ∧ Gen.shaAdvCols.length = 8 ∧
+    Gen.shaModulus = Gen.p ∧ 2 ^ 66 ≤ Gen.shaModulus ∧
+    (Gen.shaGates .lookup).length = 0 ∧ (Gen.shaGates .dW).length = 4 ∧ (Gen.shaGates .halfch).length = 2 := by
+  decide +kernel
+
+/-- **The loaded table.** Every row `(tag, plain, spreaded)` of the model of `gen_spread_table` (compared
+row by row with the table the real chip loads) satisfies the predicate `InTable` the soundness theorems
+assume of a lookup: `plain < 2^tag` and `spreaded = spread(plain)`. -/
+theorem sha256_spread_table_spec :
+    ∀ g ∈ spreadTable Gen.sha256LookupLengths, ∀ r ∈ g.2, InTable g.1 r.1 r.2 := by
+  intro g hg r hr
+  simp only [spreadTable, List.mem_cons, List.mem_map] at hg
+  rcases hg with rfl | ⟨len, hlen, rfl⟩
+  · simp only [List.mem_cons, List.mem_nil_iff, or_false] at hr
+    subst hr
+    exact ⟨by norm_num, rfl⟩
+  · simp only [List.mem_map, List.mem_range] at hr
+    obtain ⟨i, hi, rfl⟩ := hr
+    have hl : len ≤ 32 := by
+      have h := lookup_lengths_ok.1
+      have := List.all_eq_true.mp h len hlen
+      simp at this
+      omega
+    exact ⟨hi, spread32_of_lt hl hi⟩
+
+/-- **Per-operation soundness** (one region each): `Maj`, `Ch`, `Σ₀`, `Σ₁`, `σ₀`, `σ₁` return the FIPS 180-4
+function of the words held by their (copied) inputs; `prepare_A`, `prepare_E`, `prepare_message_word`
+return the sum of their summands modulo `2^32` together with consistent spreaded form and limbs. In
+`Ch` the prover-chosen cell `~(¬E)` is forced by `~E + ~(¬E) = MASK_EVN_64`; in `prepare_*` the carry is
+forced by the tag-3 lookup and the result by the limb lookups; the 1-bit limbs of a message word by the
+bit checks (prime field). -/
+theorem sha256_ops_sound {p : Nat} {a : Asg} (hpr : Nat.Prime p) (hp : 2 ^ 66 ≤ p) (ha : ∀ c, a c < p)
+    (kk ivv : List Nat) (k : Nat) :
+    (∀ sA sB sC x y z, Sat p Gen.shaGates a k (Chip.maj k sA sB sC).1 → IsSpr a sA x → IsSpr a sB y →
+      IsSpr a sC z → IsPlain a (Chip.maj k sA sB sC).2 (C07.maj x y z)) ∧
+    (∀ sE sF sG x y z, Sat p Gen.shaGates a k (Chip.ch k sE sF sG).1 → IsSpr a sE x → IsSpr a sF y →
+      IsSpr a sG z → IsPlain a (Chip.ch k sE sF sG).2 (C07.ch 32 x y z)) ∧
+    (∀ ar x, Sat p Gen.shaGates a k (Sigma0 k ar).1 → AInv a ar x →
+      IsPlain a (Sigma0 k ar).2 ((sha256P kk ivv).bigSigma0 x)) ∧
+    (∀ er x, Sat p Gen.shaGates a k (Sigma1 k er).1 → EInv a er x →
+      IsPlain a (Sigma1 k er).2 ((sha256P kk ivv).bigSigma1 x)) ∧
+    (∀ wr x, Sat p Gen.shaGates a k (sigma0 k wr).1 → WInv a wr x →
+      IsPlain a (sigma0 k wr).2 ((sha256P kk ivv).smallSigma0 x)) ∧
+    (∀ wr x, Sat p Gen.shaGates a k (sigma1 k wr).1 → WInv a wr x →
+      IsPlain a (sigma1 k wr).2 ((sha256P kk ivv).smallSigma1 x)) ∧
+    (∀ ss, Sat p Gen.shaGates a k (prepareA k ss).1 → (∀ i, i < 7 → get a (summand ss i) < 2 ^ 32) →
+      AInv a (prepareA k ss).2 (sum7 a ss % 2 ^ 32)) ∧
+    (∀ ss, Sat p Gen.shaGates a k (prepareE k ss).1 → (∀ i, i < 7 → get a (summand ss i) < 2 ^ 32) →
+      EInv a (prepareE k ss).2 (sum7 a ss % 2 ^ 32)) ∧
+    (∀ ss, Sat p Gen.shaGates a k (prepareW k ss).1 → (∀ i, i < 7 → get a (summand ss i) < 2 ^ 32) →
+      WInv a (prepareW k ss).2 (sum7 a ss % 2 ^ 32)) :=
+  ⟨fun _ _ _ _ _ _ h1 h2 h3 h4 => maj_sound hp ha h1 h2 h3 h4,
+   fun _ _ _ _ _ _ h1 h2 h3 h4 => ch_sound hp ha h1 h2 h3 h4,
+   fun _ _ h1 h2 => Sigma0_sound hp ha kk ivv h1 h2,
+   fun _ _ h1 h2 => Sigma1_sound hp ha kk ivv h1 h2,
+   fun _ _ h1 h2 => sigma0_sound hp ha kk ivv h1 h2,
+   fun _ _ h1 h2 => sigma1_sound hp ha kk ivv h1 h2,
+   fun _ h1 h2 => prepareA_sound hp ha h1 h2,
+   fun _ h1 h2 => prepareE_sound hp ha h1 h2,
+   fun _ h1 h2 => prepareW_sound hpr hp ha h1 h2⟩
+
+/-- An honest witness of a `Maj` region (inputs in three external cells), as `spreaded_maj` /
+`assign_sprdd_11_11_10` compute it. -/
+def majWitness (x y z : Nat) : Asg := fun s =>
+  match s with
+  | .ext 0 => spread32 x
+  | .ext 1 => spread32 y
+  | .ext 2 => spread32 z
+  | .reg 0 off col =>
+    let lo := u32InBeLimbs (C07.maj x y z) [11, 11, 10]
+    let le := u32InBeLimbs (x ^^^ y ^^^ z) [11, 11, 10]
+    match col with
+    | 0 => lo.getD off 0
+    | 1 => spread32 (lo.getD off 0)
+    | 2 => le.getD off 0
+    | 3 => spread32 (le.getD off 0)
+    | 4 => if off = 0 then C07.maj x y z else 0
+    | 5 => if off = 0 then spread32 x else if off = 1 then spread32 z else 0
+    | 6 => if off = 0 then spread32 y else 0
+    | _ => 0
+  | _ => 0
+
+/-- Non-vacuity: the hypotheses of the per-operation theorems are satisfiable with the real modulus
+and the generated gates (honest witness of a `Maj` region on non-trivial words; kernel evaluation of the
+executable form of `Sat`), and the output cell holds `Maj`. For whole blocks the same executable check
+is run on every region of the REAL prover's witness in the correspondence step (`sha256sat`). -/
+example :
+    Sat Gen.shaModulus Gen.shaGates (majWitness 0xdeadbeef 0x12345678 0x0f0f0ff1) 0
+      (Chip.maj 0 (.ext 0) (.ext 1) (.ext 2)).1 ∧
+    majWitness 0xdeadbeef 0x12345678 0x0f0f0ff1 (.reg 0 0 4) = C07.maj 0xdeadbeef 0x12345678 0x0f0f0ff1 ∧
+    C07.maj 0xdeadbeef 0x12345678 0x0f0f0ff1 ≠ 0 := by
+  refine ⟨satB_sound ?_, ?_, ?_⟩ <;> decide +kernel
+
+/-- **sha256_round_sound.** `compression_round` emits six regions (`Σ₀(a)`, `Maj(a,b,c)`, `Σ₁(e)`,
+`Ch(e,f,g)`, `prepare_A`, `prepare_E`) wired by copy constraints. For EVERY assignment satisfying them:
+if the cells of the incoming `CompressionState` hold the working variables `v` (plain, spreaded and
+limb cells consistent: `StInv`), the message-word cell holds `wv < 2^32` and the round constant is a
+32-bit word, then the cells of the returned state hold the FIPS 180-4 round function
+`round v K_t W_t` (again with consistent spreaded forms and limbs, so that rounds compose). -/
+theorem sha256_round_sound {p : Nat} {a : Asg} (hp : 2 ^ 66 ≤ p) (ha : ∀ c, a c < p) (kk ivv : List Nat)
+    (k : Nat) (st : StRefs) (v : List Nat) (rk : Nat) (w : Src) (wv : Nat)
+    (hS : TraceSat p Gen.shaGates a k (compressionRound k st rk w).1)
+    (hst : StInv a st v) (hw : IsPlain a w wv) (hk : rk < 2 ^ 32) :
+    StInv a (compressionRound k st rk w).2 ((sha256P kk ivv).round v rk wv) :=
+  round_sound hp ha kk ivv hS hst hw hk
+
+/-- **sha256_schedule_sound.** `message_schedule` (16 × `prepare_message_word` on the block words, then
+for each of the 48 remaining words `σ₀`, `σ₁`, `prepare_message_word`): for every satisfying assignment
+whose 16 block-word cells hold the 32-bit words `bv`, the 64 returned message words (with their limbs)
+hold the FIPS 180-4 message schedule of `bv`. -/
+theorem sha256_schedule_sound {p : Nat} {a : Asg} (hpr : Nat.Prime p) (hp : 2 ^ 66 ≤ p) (ha : ∀ c, a c < p)
+    (kk ivv : List Nat) (k : Nat) (block : List Src) (bv : List Nat)
+    (hb : List.Forall₂ (IsPlain a) block bv) (hlen : block.length = 16)
+    (hS : TraceSat p Gen.shaGates a k (messageSchedule k block).1) :
+    List.Forall₂ (WInv a) (messageSchedule k block).2 ((sha256P kk ivv).scheduleW bv) :=
+  messageSchedule_sound hpr hp ha kk ivv hb hlen hS
+
+/-- **sha256_block_sound.** One iteration of the block loop of `fn sha256` — 552 regions: message
+schedule, 64 compression rounds (induction over the rounds), `CompressionState::add`. For every
+satisfying assignment: chaining-state cells hold `v`, block-word cells hold `bv` ⇒ the cells of the new
+chaining state hold `compress v bv` (FIPS 180-4 §6.2.2, on the block words). -/
+theorem sha256_block_sound {p : Nat} {a : Asg} (hpr : Nat.Prime p) (hp : 2 ^ 66 ≤ p) (ha : ∀ c, a c < p)
+    (kk ivv : List Nat) (hkk : ∀ t, kk.getD t 0 < 2 ^ 32) (k : Nat) (st : StRefs) (v : List Nat)
+    (block : List Src) (bv : List Nat) (hv : v.length = 8) (hst : StInv a st v)
+    (hb : List.Forall₂ (IsPlain a) block bv) (hlen : block.length = 16)
+    (hS : TraceSat p Gen.shaGates a k (blockEmit kk k st block).1) :
+    StInv a (blockEmit kk k st block).2 ((sha256P kk ivv).compressW v bv) :=
+  block_sound hpr hp ha kk ivv hkk hv hst hb hlen hS
+
+/-- **sha256_digest_sound.** The whole of `fn sha256` after padding, for any number `n` of blocks
+(induction over the blocks), with the tables generated from the source: for every assignment that
+satisfies all `552·n` emitted regions and whose external block-word cells are 32-bit words (they are
+produced from range-checked bytes by the native gadget, C04), the eight cells returned by
+`CompressionState::plain` hold the SHA-256 chaining value of the blocks `foldl compress IV blocks`,
+where block `b` consists of the values of the external cells `16b … 16b+15`. What is not part of this
+theorem: the conversion bytes ↔ words (`assigned_from_be_bytes`, `assigned_to_be_bytes` of the native
+gadget) and the padding bytes (`sha256_padding_spec`); both are covered by the digest correspondence. -/
+theorem sha256_digest_sound {p : Nat} {a : Asg} (hpr : Nat.Prime p) (hp : 2 ^ 66 ≤ p) (ha : ∀ c, a c < p)
+    (hext : ∀ i, a (.ext i) < 2 ^ 32) (n : Nat)
+    (hS : TraceSat p Gen.shaGates a 0 (emit Gen.sha256K Gen.sha256IV n).1) :
+    (emit Gen.sha256K Gen.sha256IV n).2.plain.map (get a)
+      = ((List.range' 0 n).map (extWords a)).foldl (sha256P Gen.sha256K Gen.sha256IV).compressW Gen.sha256IV := by
+  have hkk : ∀ t, Gen.sha256K.getD t 0 < 2 ^ 32 := by
+    intro t
+    by_cases ht : t < 64
+    · have : ∀ i, i < 64 → Gen.sha256K.getD i 0 < 2 ^ 32 := by decide +kernel
+      exact this t ht
+    · rw [List.getD_eq_default _ _ (by simp [Gen.sha256K]; omega)]; norm_num
+  have hiv : ∀ i, Gen.sha256IV.getD i 0 < 2 ^ 32 := by
+    intro i
+    by_cases hi : i < 8
+    · have : ∀ j, j < 8 → Gen.sha256IV.getD j 0 < 2 ^ 32 := by decide +kernel
+      exact this i hi
+    · rw [List.getD_eq_default _ _ (by simp [Gen.sha256IV]; omega)]; norm_num
+  have h := blocks_sound hpr hp ha Gen.sha256K Gen.sha256IV hkk hext n 0 0 (StRefs.fixed Gen.sha256IV) Gen.sha256IV
+    rfl (StInv_fixed hiv) hS
+  rw [← chain_eq_foldl]
+  refine StInv.plain_cells h ?_
+  clear h hS
+  have : ∀ (n b : Nat) (v : List Nat), v.length = 8 →
+      (chain (sha256P Gen.sha256K Gen.sha256IV) a n b v).length = 8 := by
+    intro n
+    induction n with
+    | zero => intro _ _ h; exact h
+    | succ m ih => intro b v h; exact ih (b + 1) _ (compressW_length _ _ _ h)
+  exact this n 0 _ rfl
+
+/-- The emitted trace has `552·n` regions and the compression on words is the compression on bytes of
+`Sha2.digest` (the reference function compared with RustCrypto and the chips on every run). -/
+theorem sha256_emit_shape (h block : List Nat) :
+    regionsPerBlock = 552 ∧
+    (sha256P Gen.sha256K Gen.sha256IV).compress h block
+      = (sha256P Gen.sha256K Gen.sha256IV).compressW h ((sha256P Gen.sha256K Gen.sha256IV).blockWords block) ∧
+    (emit Gen.sha256K Gen.sha256IV 1).1.length = 552 ∧ (emit Gen.sha256K Gen.sha256IV 2).1.length = 1104 := by
+  refine ⟨rfl, rfl, ?_, ?_⟩ <;> decide +kernel
+
+/-- **sha256_digest_sound for the shipped field.** The native modulus of the running code
+(`F::MODULUS`, dumped by the translator) is the BLS12-381 scalar modulus, which is prime (Lucas
+certificate of C10) and larger than `2^66`: `sha256_digest_sound` holds for it without hypotheses on
+the modulus. -/
+theorem sha256_digest_sound_native {a : Asg} (ha : ∀ c, a c < Gen.shaModulus)
+    (hext : ∀ i, a (.ext i) < 2 ^ 32) (n : Nat)
+    (hS : TraceSat Gen.shaModulus Gen.shaGates a 0 (emit Gen.sha256K Gen.sha256IV n).1) :
+    (emit Gen.sha256K Gen.sha256IV n).2.plain.map (get a)
+      = ((List.range' 0 n).map (extWords a)).foldl (sha256P Gen.sha256K Gen.sha256IV).compressW Gen.sha256IV := by
+  have hm : Gen.shaModulus = C10.blsR := by decide +kernel
+  have hpr : Nat.Prime Gen.shaModulus := hm ▸ C10.blsR_prime
+  exact sha256_digest_sound hpr (by decide +kernel) ha hext n hS
+
+end ShaChip
 
 end MidnightZK.C07
 
